@@ -488,7 +488,8 @@ func opBridge(g *G) bool {
 	a, k := g.amount(h.T)
 	g.bump("amount:" + k)
 	note += " (" + k + ")"
-	g.Do(g.App.MsgBridge(h.Acct, target, ethAddr(9), g.dupCredits(h.Batch.Denom, a, &note)...), note)
+	// several different batches of the owner in one message, bound and unbound ones mixed in any order
+	g.Do(g.App.MsgBridge(h.Acct, target, ethAddr(9), g.multiCredits(hs, h, g.dupCredits(h.Batch.Denom, a, &note), &note)...), note)
 	return true
 }
 
